@@ -373,6 +373,41 @@ def r12f(ctx, rep, cr):
     rep.floor('R12f', 'add_wait calls in LockManager', n, 1)
 
 
+def r12g(ctx, rep, cr):
+    rep.rule('R12g', 'a release that took a key out of the lock table also takes the transaction out of the wait-for graph: in every '
+                     'LockManager function that calls WaitForGraph::remove_transaction once (not per element of a collection), no return is '
+                     'reachable after a removal from LockManager.locks without passing that call (path-sensitive on the Option that '
+                     'carries the owner found in the table). A cleanup that is made conditional on anything else — the per-transaction '
+                     'key list being empty, for one: try_lock leaves stale keys in it after an expiry take-over — leaves a finished '
+                     'transaction as holder in the graph, and its waiters wait for nothing')
+    n = 0
+    for name, f in sorted(cr.fns.items()):
+        if not name.startswith(LM) or '{closure' in name:
+            continue
+        rt = [c for c in A.calls_to(f, ('re', r'WaitForGraph::remove_transaction$'))]
+        if len(rt) != 1:
+            continue
+        c = rt[0]
+        if c.bb in A.reachable(f, [x for x in A.succs(f, c.bb) if not f.bbs[x]['cleanup']]):
+            continue   # per-element cleanup in a loop: the collection decides, not a path
+        defs = A.Defs(f)
+        gl = _guard_for(f, defs, LOCKS)
+        rem = _map_calls(f, defs, gl, 'remove')
+        if not rem:
+            continue
+        n += 1
+        rep.analysed(f)
+        rets = {i for i, b in enumerate(f.bbs) if b['t'][0] == 'ret'}
+        R = A.reachable_cp(f, [0], cut_blocks={c.bb}, marks={x.bb for x in rem})
+        if R & rets:
+            rep.violation('R12g', f, 'release-without-graph-cleanup', f.loc(c.line),
+                          'after a key was removed from the lock table the function can return without WaitForGraph::remove_transaction: '
+                          'the released transaction stays in the wait-for graph as a holder that holds nothing')
+        else:
+            rep.holds('R12g', f, 'remove→graph cleanup', '%d table removal(s), each followed by remove_transaction on every path' % len(rem))
+    rep.floor('R12g', 'single-shot graph cleanups after a table removal', n, 1)
+
+
 def run(ctx, rep):
     cr = ctx.crate('tensor_chain')
     r12a(ctx, rep, cr)
@@ -381,5 +416,6 @@ def run(ctx, rep):
     r12d(ctx, rep, cr)
     r12e(ctx, rep, cr)
     r12f(ctx, rep, cr)
+    r12g(ctx, rep, cr)
     if ctx.tier == 'thorough':
         witness.run(rep, 'R12a', ['LockTablesArePrivate'])
